@@ -786,6 +786,25 @@ fn run_reveals(ctx: &Ctx) {
             }
         }
     }
+    // a window that cannot have reveal surfaces (its wall is unknown / has no position) listed before an ordinary
+    // set-back window: the second one still gets its four surfaces
+    for bad in 0..3 {
+        ctx.eval(1);
+        let mut m = Model::default();
+        m.spaces.push(space("S1", SpaceType::CONDITIONED, true, 3.0));
+        m.walls.push(wall("w0", BoundaryType::EXTERIOR, nil(), uid("S1"), None, geom(90.0, 0.0, Some([0.0, 0.0, 0.0]), rect(5.0, 3.0))));
+        m.walls.push(wall("w1", BoundaryType::EXTERIOR, nil(), uid("S1"), None, geom(90.0, 90.0, None, rect(5.0, 3.0))));
+        match bad {
+            0 => m.windows.push(window("vbad", nil(), uid("no-such-wall"), Some([1.0, 1.0]), 1.0, 1.0, 0.2)),
+            1 => m.windows.push(window("vbad", nil(), uid("w1"), Some([1.0, 1.0]), 1.0, 1.0, 0.2)),
+            _ => m.windows.push(window("vbad", nil(), uid("w0"), None, 1.0, 1.0, 0.2)),
+        }
+        m.windows.push(window("v0", nil(), uid("w0"), Some([1.0, 1.0]), 2.0, 1.5, 0.2));
+        let n_good = m.collect_occluders().iter().filter(|o| o.linked_to_id == Some(uid("v0"))).count();
+        if n_good != 4 {
+            ctx.violation("reveal:count:after-a-window-without-reveals", &format!("{} reveal surfaces for a set-back window listed after a window {}; expected 4", n_good, ["whose wall is unknown", "whose wall has no position", "without position"][bad]), json!({"kind": "reveal", "first_window_kind": bad}));
+        }
+    }
     // setback 0 -> no reveal
     let mut m = Model::default();
     m.walls.push(wall("w0", BoundaryType::EXTERIOR, nil(), uid("S1"), None, geom(90.0, 0.0, Some([0.0, 0.0, 0.0]), rect(5.0, 3.0))));
@@ -804,7 +823,7 @@ pub fn run(ctx: &Ctx) -> i32 {
     run_reveals(ctx);
     ctx.finish(
         "model_checking",
-        "(a) BVH: all sequences of length 0..L over an 8-box alphabet on the {0..3}^3 grid (flat, point, two boxes with identical centres; L=4 quick / 5 thorough) x leaf size {1,2,3,30} x 88 rays (incl. directions with -0.0 components), n copies of one element, collinear centres, centres coinciding on the split axis (also at values that are not binary fractions: 4.05, 0.1, 0.7, 1e-3, 123456.7, -2.3), prefixes of a 216-box lattice, shade sets through BVH<&Occluder>; each build runs in a supervised worker process (watchdog, 4 GiB) and BVH.intersects(r).is_some() is compared with testing every obstacle; AABB::intersects itself against an f64 slab test for 48 boxes x 88 rays, and BVH over plain polygons (no box pre-check on the element side) against the one-by-one polygon test; 2..40 complementary triangles of one rectangle (identical boxes, different polygons, all centres coinciding) x leaf size {1,2,30} x an 80-ray grid over the rectangle; (b) all simple polygons (general position) with 3..4 vertices on the 4x4 grid (+5-gons 4x4 and 6-gons 3x3 in thorough, 5-gons 3x3 in quick; + three outlines with a corner in the middle of a side, listed from every corner in both senses) x poses (tilt{0,30,90,135,180} x az{0,45,90,-120,180} x 2 positions) x 64 quarter-lattice targets x 3 directions x {front-towards, front-away, behind-towards, parallel} against exact integer point-in-polygon (targets on the outline skipped) + AABB containment; (c) reveal quads for setback{.05,.2,1} x 3 window rects x 6 tilts x 5 azimuths x 2 positions against the wall's own transform, the first window also with the wall outline shifted in its plane and listed from its third corner; non-trivial = non-empty obstacle set / polygon with at least one expected hit / 4 reveal quads generated",
+        "(a) BVH: all sequences of length 0..L over an 8-box alphabet on the {0..3}^3 grid (flat, point, two boxes with identical centres; L=4 quick / 5 thorough) x leaf size {1,2,3,30} x 88 rays (incl. directions with -0.0 components), n copies of one element, collinear centres, centres coinciding on the split axis (also at values that are not binary fractions: 4.05, 0.1, 0.7, 1e-3, 123456.7, -2.3), prefixes of a 216-box lattice, shade sets through BVH<&Occluder>; each build runs in a supervised worker process (watchdog, 4 GiB) and BVH.intersects(r).is_some() is compared with testing every obstacle; AABB::intersects itself against an f64 slab test for 48 boxes x 88 rays, and BVH over plain polygons (no box pre-check on the element side) against the one-by-one polygon test; 2..40 complementary triangles of one rectangle (identical boxes, different polygons, all centres coinciding) x leaf size {1,2,30} x an 80-ray grid over the rectangle; (b) all simple polygons (general position) with 3..4 vertices on the 4x4 grid (+5-gons 4x4 and 6-gons 3x3 in thorough, 5-gons 3x3 in quick; + three outlines with a corner in the middle of a side, listed from every corner in both senses) x poses (tilt{0,30,90,135,180} x az{0,45,90,-120,180} x 2 positions) x 64 quarter-lattice targets x 3 directions x {front-towards, front-away, behind-towards, parallel} against exact integer point-in-polygon (targets on the outline skipped) + AABB containment; (c) reveal quads for setback{.05,.2,1} x 3 window rects x 6 tilts x 5 azimuths x 2 positions against the wall's own transform, the first window also with the wall outline shifted in its plane and listed from its third corner; a set-back window listed after a window that cannot have reveals; non-trivial = non-empty obstacle set / polygon with at least one expected hit / 4 reveal quads generated",
         true,
         json!({}),
     )
